@@ -354,7 +354,7 @@ def cases(draw):
     if kind == "disco_msgid":
         pert["delta"] = draw(st.sampled_from([1, -1, 4711, 2 ** 32, -2 ** 32, 2 ** 33]))
     case = dict(proto=proto, op=op, perturb=pert,
-                clock=draw(st.one_of(st.sampled_from([5, 1_700_000_000, 1_700_000_000.5, 1_700_000_000.999, 2 ** 31 - 100]),
+                clock=draw(st.one_of(st.sampled_from([0, 0.25, 0.999, 1, 5, 1_700_000_000, 1_700_000_000.5, 1_700_000_000.999, 2 ** 31 - 100]),
                                      st.floats(1, 2 ** 31 - 1000, allow_nan=False))),
                 inc=draw(INCS), bulk=draw(st.sampled_from([1, 2, 3, 10])))
     if kind == "none" and draw(st.integers(0, 3)) == 0:
